@@ -124,7 +124,12 @@ def purify(t: Any) -> Any:
         r = t
     elif t.sort().kind() == z3.Z3_INT_SORT and z3.is_app(t) and \
             any(c.sort().kind() in (z3.Z3_SEQ_SORT, z3.Z3_RE_SORT) for c in t.children()):
-        r = z3.Int(f"pure!{k}")
+        nm = t.decl().name()
+        if nm in ("seq.nth", "seq.nth_i") and z3.is_int_value(t.arg(1)):
+            # z3.simplify rewrites s[i] into ite(len(s) <= i, nth_u, nth_i): one name for both
+            r = z3.Int(f"pure!nth!{t.arg(0).get_id()}!{t.arg(1).as_long()}")
+        else:
+            r = z3.Int(f"pure!{k}")
     elif z3.is_app(t) and t.num_args() > 0 and t.sort().kind() not in (z3.Z3_SEQ_SORT,
                                                                          z3.Z3_RE_SORT):
         ch = [purify(c) for c in t.children()]
@@ -186,6 +191,7 @@ class Explorer:
         self.obligations: list[Obligation] = []
         self.paths = 0
         self.normal_paths = 0
+        self.pruned_late = 0
         self.functions: dict[str, str] = {}  # qualname -> source hash
         self.solver_ms = 0.0
         self.assumptions: set[str] = set()
@@ -214,6 +220,12 @@ class Explorer:
                 self.normal_paths += 1
             except PathAbort:
                 pass
+            except (Unsupported, PyExc):
+                # feasibility is decided on the arithmetic projection (over-approximation): before
+                # a path is reported as outside the subset, its full path condition is checked
+                if not interp.infeasible_full():
+                    raise
+                self.pruned_late += 1
             for alt in interp.alternatives:
                 stack.append(alt)
 
@@ -412,6 +424,15 @@ class Interp:
 
     def n_pure(self) -> int:
         return len(self.pure())
+
+    def infeasible_full(self) -> bool:
+        s = z3.Solver()
+        s.set("timeout", 30000)
+        s.add(*self.solver_assertions)
+        t0 = time.time()
+        r = s.check()
+        self.ex.solver_ms += (time.time() - t0) * 1000
+        return r == z3.unsat
 
     def _feasible(self, f: Any) -> bool:
         poll_deadline()
